@@ -12,7 +12,7 @@ RULE = (
     "thermalisation, unit systems, injected refusals, stops inside a step (cancel / resume), solver solved twice, device read back from a file; non-trivial = at least 3 updates checked with a non-zero terminal current "
     "or a time-dependent field; distinct = distinct scenario digests"
 )
-LIFECYCLES = {"p_prior": 0.07, "p_metres": 0.08, "p_reoriented": 0.04}  # shared object life cycles (scen.add_lifecycles) with their default rates
+LIFECYCLES = {"p_prior": 0.07, "p_metres": 0.08, "p_reoriented": 0.04, "p_guest": 0.1}  # shared object life cycles (scen.add_lifecycles) with their default rates
 BUDGET = {"quick": {"runs": 700, "chunk": 10}, "thorough": {"runs": 120000, "chunk": 20}}
 COMPONENTS = {"real": ["Device/mesh", "TDGLSolver (update, Poisson solve, boundary conditions, validator)", "MeshOperators", "Runner", "DataHandler"], "stub": ["wall clock", "validator RNG (seeded)", "monitor subprocess"]}
 
